@@ -203,6 +203,7 @@ func c20CheckFault(t vh.Fataler, rec *vh.Rec, root string, c c20Case) {
 	}
 	strays, strayBytes, _ := c20Strays(res.dir)
 	rec.ClassN("stray-tmp-files", int64(strays))
+	c20StraySeen = c20StraySeen || strays > 0
 	rec.ClassN("stray-tmp-bytes", strayBytes)
 	rec.ClassN("failed-stores", int64(fired))
 	classes := make([]string, 0, len(classSet))
@@ -213,6 +214,15 @@ func c20CheckFault(t vh.Fataler, rec *vh.Rec, root string, c c20Case) {
 	rec.Case(fired > 0, vh.Digest(c), c, classes...)
 	if v != nil {
 		rec.Violation(t, v.key, c, "%s; sequence=%v init=%dKiB", v.msg, c.Ops, c.InitKB)
+	}
+}
+
+// measured, reported only (the property does not speak about temporary files)
+var c20StraySeen bool
+
+func c20StrayNote(rec *vh.Rec) {
+	if c20StraySeen {
+		rec.Note("not judged: a store that fails after creating its temporary file (.ClientConf.<rand>.tmp) never removes it, so temporary files accumulate one per failed attempt (counts: classes failed-stores / stray-tmp-files / stray-tmp-bytes)")
 	}
 }
 
@@ -237,6 +247,7 @@ func TestVerif_C20_faultgrid(t *testing.T) {
 		return
 	}
 	rec.SetExhaustive(true)
+	defer c20StrayNote(rec)
 	type fl struct {
 		fault string
 		limit int64
@@ -319,6 +330,7 @@ func TestVerif_C20_faults(t *testing.T) {
 		c20CheckFault(t, rec, root, c)
 		return
 	}
+	defer c20StrayNote(rec)
 	rapid.Check(t, func(rt *rapid.T) {
 		c := c20GenFault(rt)
 		c20CheckFault(rt, rec, root, c)
